@@ -48,6 +48,23 @@ class World:
         self.close_error = None
 
     async def start(self):
+        if self.tmpdir:
+            # every file object the file-system back ends open below this world's directory, whoever (if anybody) gets to see it:
+            # an executor thread goes on opening a file after the call that asked for it was cancelled, and the spy, which
+            # records a handle when `_open` returns, never learns of that one
+            self.raw_files = []
+            world = self
+            self._orig_path_open = orig = pathlib.Path.open
+
+            def recording_open(path_self, *a, **kw):
+                f = orig(path_self, *a, **kw)
+                try:
+                    if str(path_self).startswith(world.tmpdir):
+                        world.raw_files.append((str(path_self)[len(world.tmpdir):] or "/", f))
+                except Exception:
+                    pass
+                return f
+            pathlib.Path.open = recording_open
         await self.server.start(self.host, self.port)
         if self._tree0:
             self.populate(self._tree0)
@@ -92,6 +109,14 @@ class World:
         return True
 
     def cleanup(self):
+        if getattr(self, "_orig_path_open", None) is not None:
+            pathlib.Path.open = self._orig_path_open
+            self._orig_path_open = None
+            for _, f in getattr(self, "raw_files", []):
+                try:
+                    f.close()
+                except Exception:
+                    pass
         if self.tmpdir:
             shutil.rmtree(self.tmpdir, ignore_errors=True)
 
@@ -126,6 +151,10 @@ class World:
                 out.append(f"listener on port {s.port} still open")
         if self.ctl.open_handles:
             out.append(f"back-end file handles still open: {self.ctl.open_handles[:3]}")
+        still = [p_ for p_, f in getattr(self, "raw_files", []) if not f.closed]
+        if still and not self.ctl.open_handles:
+            out.append(f"back-end file opened and never closed (nobody holds it: opened by a thread after its caller had been "
+                       f"cancelled or had given up): {still[:3]}")
         conns = getattr(self.server, "connections", {})
         if conns:
             out.append(f"Server.connections still has {len(conns)} entries")
